@@ -260,7 +260,9 @@ func (x *Unit) runAction(st *State, a *AnchorAction) {
 		}
 		be := qenv.child()
 		be.names[a.Var] = w
-		x.obligeBy(a.Clause.By, st, "exhibit", a.Clause.Label, x.tagsOr(a.Clause.Tags), be.boolOf(q.Body), a.Clause.Src+"  [witness "+a.Var+" := "+a.Src+"]", node)
+		inst := be.boolOf(q.Body)
+		x.obligeBy(a.Clause.By, st, "exhibit", a.Clause.Label, x.tagsOr(a.Clause.Tags), inst, a.Clause.Src+"  [witness "+a.Var+" := "+a.Src+"]", node)
+		x.assumeAs(st, a.Clause.Label, inst)
 		x.assumeAs(st, a.Clause.Label, env.boolOf(a.Clause.Expr))
 	case "obtain":
 		// existential elimination: prove (exists v :: body), then name a witness
@@ -506,6 +508,9 @@ func (x *Unit) verifyOnce() (res *UnitResult) {
 			x.obligeBy(en.By, normal, "typeinv", en.Label, x.tagsOr(en.Tags), env.boolOf(en.Expr), en.Src, x.FU.Body)
 		}
 		for _, en := range c.Ensures {
+			if en.EachReturn {
+				continue // proved at every return statement (monitorsAtReturn)
+			}
 			env := x.unitEnv(normal, nil)
 			env.paramOld = true
 			if x.pass == 1 {
@@ -830,4 +835,30 @@ func (x *Unit) monitorsAtReturn(st *State, where string, node ast.Node) {
 		x.obligeBy(en.By, st, "typeinv", en.Label+"."+where, x.tagsOr(en.Tags), cond, en.Src, node)
 		x.assumeAs(st, en.Label, cond)
 	}
+	// postconditions marked each_return are proved in the state of each return statement as well
+	for _, en := range c.Ensures {
+		if !en.EachReturn {
+			continue
+		}
+		x.onlyUnlockDeferred()
+		env := x.unitEnv(st, nil)
+		env.paramOld = true
+		cond := env.boolOf(en.Expr)
+		x.obligeBy(en.By, st, "post", en.Label+"."+where, en.Tags, cond, en.Src, node)
+	}
+}
+
+func (x *Unit) onlyUnlockDeferred() {
+	ast.Inspect(x.FU.Body, func(n ast.Node) bool {
+		if _, ok := n.(*ast.FuncLit); ok {
+			return false
+		}
+		if d, ok := n.(*ast.DeferStmt); ok {
+			sel, _ := d.Call.Fun.(*ast.SelectorExpr)
+			if sel == nil || (sel.Sel.Name != "Unlock" && sel.Sel.Name != "RUnlock") {
+				x.fail(d, "each_return clause in a function that defers something other than a lock release")
+			}
+		}
+		return true
+	})
 }
